@@ -48,7 +48,16 @@ def _judge_one(op, sb, idx):
         shadows[rop] = dict(SIM.shadow_tables)
     if outcomes[True][0] != "ok" or outcomes[False][0] != "ok":
         # not a valid script for both settings (fetching more results may legitimately fail,
-        # e.g. a non-persistent result that cannot be rendered in the requested period format)
+        # e.g. a non-persistent result that cannot be rendered in the requested period format).
+        # The safety rules still apply to whatever was executed before the failure: a schedule
+        # defect shows up as a statement reading an unmaterialised table, and must not be
+        # mistaken for an invalid script.
+        for rop in (True, False):
+            for h in hist[rop]:
+                viols, _st = tablestore.check_history(h, completed=False)
+                for (rule, table, detail) in viols:
+                    recs.append((rule, "run failed (%s); return_only_persistent=%s table=%s %s" % (
+                        ops._brief(outcomes[rop]) if outcomes[rop][0] == "exc" else "ok", rop, table, detail)))
         return recs, stats
     stats["valid"] = 1
     try:
